@@ -64,6 +64,7 @@ class SymEnv(object):
         shim.HOOKS.log = None
         shim.HOOKS.warn = None
         shim.HOOKS.fmt = None
+        shim.HOOKS.range_cap = None
         self.p = core.CUR
 
     # -- inputs
@@ -173,6 +174,9 @@ class SymEnv(object):
 
     def patch_attr(self, obj, name, fn):
         setattr(obj, name, fn)
+
+    def cap_loops(self, k):
+        shim.HOOKS.range_cap = k
 
     def own(self, a, name):
         """mark an array as caller-owned: any in-place write to its storage is recorded"""
@@ -392,6 +396,9 @@ class ConcEnv(object):
 
     def get(self, name):
         return self.ns[name]
+
+    def cap_loops(self, k):
+        pass
 
     def own(self, a, name):
         if not hasattr(self, '_owned'):
